@@ -258,7 +258,7 @@ def run(tier, v):
     pair_lines = [{"id": 0, "op": "packets", "frames": [c10.frame((10, 4, 0, 1), (10, 4, 0, 2), 42000, 443, 1, 1, 0x18, good, ipid=1).hex()]}]
     pmeta = {}
     for k, (b, field, delta) in enumerate(sorted(set(tlsmeta))):
-        if field == "rec" or delta == 0:
+        if field in ("rec", "text") or delta == 0:
             continue                     # a wrong record length makes the record incomplete or leaves a tail: stream semantics, not an error
         cp = 42001 + k
         pair_lines.append({"id": k + 1, "op": "packets", "frames": [c10.frame((10, 4, 0, 1), (10, 4, 0, 2), cp, 443, 1, 1, 0x18, b, ipid=2).hex(),
